@@ -48,6 +48,14 @@ STATEMENT_STATUS = {
     "C01_bufsize_indep / C01_offset_indep / C01_offset_indep_ws": "proved, FULL (every byte string, conformant or damaged, "
         "odd hex included): the objects read do not depend on the read-buffer size, nor on a token-free prefix (white "
         "space of every SPC byte, complete comments) in front; checked on the implementation for damaged spellings too",
+    "C01_stream_object_spelled_partial": "proved: the same for the spelled family (ObjSpelling head + spelled dictionary, every "
+        "spelling freedom); the token hypothesis is discharged by lex_tree (StreamSeam.head_tokens); partial: only the "
+        "Complete-scanner-state hypothesis after the dictionary remains (checked: always main or wclose on 1200 objects/run)",
+    "C01_stream_object_partial": "proved at every buffer size: objid gen obj <<dict with direct correct /Length>> + white space "
+        "+ stream + LF|CRLF + ANY payload + marker-free tail + endstream endobj -> getobjS yields the stream with exactly that "
+        "dictionary and payload; composes C14_compositional, feed_ser/nextobjectP_prefix and C03's Filters.streamRead. "
+        "partial: the lexing of the part in front of the keyword (Complete scanner state, token values) is a hypothesis, "
+        "checked on every generated object (reader:getobj-streamthm)",
     "C01_context_indep": "proved, full for the tokens: behind a spelled value any white-space/delimiter byte but '>' and then "
                          "ARBITRARY bytes - the token values are ser(value) followed by those of the tail read alone; checked "
                          "on the real tokenizer (reader:context)",
@@ -631,6 +639,10 @@ class Batch:
     def add(self, line: str, op: str, inp: Any, expected: str) -> None:
         self.req.append(line)
         self.exp.append((op, inp, expected))
+        if op == "model.getobj":
+            # the same read with the stream branch delegated to C03's `Filters.streamRead` (ObjParser.getobjS)
+            self.req.append("model.getobjS" + line[len("model.getobj"):])
+            self.exp.append(("model.getobjS", inp, expected))
 
     def flush(self) -> None:
         if self.req and self.ctx.driver is not None:
@@ -783,6 +795,7 @@ def _run(ctx: C.Ctx) -> None:
             check_mutant(ctx, batch, make_case(rng, value, feats, "stream"), rng)
         if i % 10 == 0:
             check_stream_object(ctx, batch, rng)
+            check_stream_theorem(ctx, batch, rng)
         if i % 5 == 0:
             check_context(ctx, make_case(rng, value, feats, "stream"), rng)
         if i % 3 == 0:
@@ -840,6 +853,48 @@ def check_stream_object(ctx: C.Ctx, batch: Batch, rng) -> None:
              sample={"object": repr(body), "bufsiz": bufsiz})
     batch.add("model.getobj %d 5 %s" % (bufsiz, C.hx(pdf[off:])), "model.getobj",
               {"object": body.hex(), "ascii": repr(body), "bufsiz": bufsiz, "eol": eol.hex()}, got)
+
+
+def check_stream_theorem(ctx: C.Ctx, batch: Batch, rng) -> None:
+    """Objects of exactly the shape of `C01_stream_object_partial`: spelled dictionary with a direct, correct /Length,
+    non-empty white space, `stream`, LF|CRLF, ANY payload bytes, a marker-free tail, `endstream endobj`.  On the
+    implementation: the scanner state after `5 0 obj <<dict>>` is a `Complete` one (hypothesis `hc`, checked here, not
+    proved for the family) and getobj returns a stream with exactly the payload; `model.getobj` / `model.getobjS` tied."""
+    n = rng.choice([0, 1, 2, 5, 17, 40])
+    kind = rng.random()
+    if kind < 0.5:
+        data = bytes(rng.randrange(256) for _ in range(n))
+    else:
+        data = bytes(rng.choice(b"ab \r\n\x00endstream()<>/%") for _ in range(n))
+        if rng.random() < 0.3:
+            data += b"\nendstream endobj\n"[: rng.randint(1, 18)]
+    sp = Speller(rng, rng.sample(ALL_FEATURES, rng.randint(0, 5)))
+    items = [(b"Length", ("int", len(data)))]
+    for _ in range(rng.randint(0, 2)):
+        k = gen_key(rng)
+        if k and k != b"Length" and all(k != kk for kk, _ in items):
+            items.append((k, gen_scalar(rng)))
+    rng.shuffle(items)
+    head = sp.spell(("dict", items))
+    ws = bytes(rng.choice(b"\x00\t\n\x0c\r ") for _ in range(rng.randint(1, 3)))
+    tail = rng.choice([b"", b"\n", b"\r\n", b" x\n", b"\rends "])
+    body = head + ws + b"stream" + rng.choice([b"\n", b"\r\n"]) + data + tail + b"endstream endobj"
+    bufsiz = rng.choice(SIZES)
+    eol = rng.choice([b"\n", b"\r\n"])
+    got = read_getobj(body, bufsiz, eol, b"")
+    pdf, off = getobj_pdf(body, eol, b"")
+    p = pdf[off:]
+    pre = p[: p.index(head) + len(head)]
+    mode = LEX.impl_mode_after(pre)
+    ctx.case((body, "stream-theorem", bufsiz), True, branch="reader:getobj-streamthm",
+             sample={"object": repr(body)[:200], "bufsiz": bufsiz, "mode_after_dict": mode, "result": got[:120]})
+    ctx.branch("streamthm:pre-" + mode)
+    inp = {"object": body.hex(), "ascii": repr(body), "bufsiz": bufsiz, "eol": eol.hex()}
+    if mode not in LEX.COMPLETE_MODES:
+        ctx.disagree("impl.stream-pre", inp, "a Complete scanner after the dictionary", mode)
+    if not (got.startswith("S:") and got.endswith(">> " + C.hx(data))):
+        ctx.disagree("impl.stream-object", inp, "S:<< ... >> " + C.hx(data), got)
+    batch.add("model.getobj %d 5 %s" % (bufsiz, C.hx(p)), "model.getobj", inp, got)
 
 
 def check_multi_getobj(ctx: C.Ctx, batch: Batch, rng, seen_fail: Set[str]) -> None:
